@@ -853,7 +853,7 @@ hwloc__xml_import_object(hwloc_topology_t topology,
   }
 
   /* 2.0 backward compatibility */
-  if (obj->type == HWLOC_OBJ_GROUP) {
+  if (data->version_major <= 2 && obj->type == HWLOC_OBJ_GROUP) {
     if (obj->attr->group.kind == HWLOC_GROUP_KIND_INTEL_DIE
 	|| (obj->subtype && !strcmp(obj->subtype, "Die")))
       obj->type = HWLOC_OBJ_DIE;
